@@ -2,7 +2,7 @@ SPECIFICATION Spec
 CONSTANTS
   F = 32768
   WSizes = {1, 32767, 32768, 32769, 65536, 100001}
-  RSizes = {1, 1024, 32767, 32768, 32769, 100001}
+  RSizes = {1, 32767, 32768, 32769, 100001}
   MaxW = 2
   MaxR = 4
 INVARIANTS TypeOK FrameBound Conservation
